@@ -3,11 +3,13 @@ package core
 import (
 	"bytes"
 	"context"
+	"errors"
 	"fmt"
 	"io/ioutil"
 
 	context2 "github.com/oneconcern/datamon/pkg/context"
 	"github.com/oneconcern/datamon/pkg/storage"
+	storagestatus "github.com/oneconcern/datamon/pkg/storage/status"
 	"gopkg.in/yaml.v2"
 
 	"github.com/oneconcern/datamon/pkg/model"
@@ -116,6 +118,10 @@ func DeleteBundle(repo string, stores context2.Stores, bundleID string, opts ...
 
 	// 3. remove bundle descriptor
 	if e := store.Delete(context.Background(), pth); e != nil && !options.ignoreBundleError {
+		return fmt.Errorf("cannot delete bundle descriptor for %s in repo %s: %v", bundleID, repo, e)
+	} else if e != nil && !errors.Is(e, storagestatus.ErrNotExists) {
+		// ignoring bundle errors tolerates incomplete metadata, not a store that failed to remove the descriptor:
+		// the bundle would remain visible, without its file lists
 		return fmt.Errorf("cannot delete bundle descriptor for %s in repo %s: %v", bundleID, repo, e)
 	}
 
